@@ -130,6 +130,31 @@ def iteration_length_indexing_agree():
     _views_agree("combined-with-antenna", c2, ["a0", "a1", "a2", "g0", "g1", "g0", "g1", "solo"])
 
 
+@harness(clause="views-agree", label="B")
+def views_follow_later_changes_of_nested_parts():
+    """history: the flat views are read, then a nested part is rebuilt through its own public interface (not through the
+    outer detector), then the views are read again - they show the antennas that are built now"""
+    r = _built_row(2, "a")
+    g = Grid(2, 2)
+    g.build_antennas(tagbase="g")
+    c = r + g
+    _views_agree("before:nested", g, ["g0", "g1", "g0", "g1"])
+    _views_agree("before:combined", c, ["a0", "a1", "g0", "g1", "g0", "g1"])
+    g.subsets[1].build_antennas(tagbase="n")            # the second row of the grid rebuilt directly
+    _views_agree("after-a-nested-rebuild:nested", g, ["g0", "g1", "n0", "n1"])
+    _views_agree("after-a-nested-rebuild:combined", c, ["a0", "a1", "g0", "g1", "n0", "n1"])
+    g.subsets[0].antenna_positions.append((5, 0, -10))   # ... and the first row grown by one antenna and rebuilt
+    g.subsets[0].build_antennas(tagbase="m")
+    want = ["a0", "a1", "m0", "m1", "m2", "n0", "n1"]
+    _views_agree("after-a-nested-row-grew:combined", c, want)
+    _views_agree("after-a-nested-row-grew:nested", g, want[2:])
+    newest = g.subsets[0].subsets[2]
+    newest.is_hit = True
+    prove("trigger-sees-the-antennas-built-later", And(c.triggered() is True, g.triggered() is True))
+    c.clear()
+    prove("clear-reaches-the-antennas-built-later", And(newest.cleared == [False], g.subsets[1].subsets[0].cleared == [False]))
+
+
 @harness(clause="combination-associative", label="B")
 def addition_is_associative_in_flattened_content():
     a, b, c = _built_row(1, "a"), _built_row(2, "b"), _built_row(1, "c")
